@@ -163,14 +163,21 @@ func (r *rewriter) pkgOf(x ast.Expr) string {
 	return ""
 }
 
-var syncMap = map[string]string{"Mutex": "Mutex", "RWMutex": "RWMutex", "WaitGroup": "WaitGroup", "Once": "Once"}
+var syncMap = map[string]string{"Mutex": "Mutex", "RWMutex": "RWMutex", "WaitGroup": "WaitGroup", "Once": "Once",
+	"Cond": "Cond", "NewCond": "NewCond", "Map": "SyncMap", "Locker": "Locker"}
+var syncKeep = map[string]bool{"Pool": true}
+var atomicTypes = map[string]string{"Bool": "AtomicBool", "Int32": "AtomicInt32", "Int64": "AtomicInt64", "Uint32": "AtomicUint32", "Value": "AtomicValue"}
+var atomicFuncs = map[string]bool{"AddInt32": true, "AddInt64": true, "AddUint32": true, "AddUint64": true, "LoadInt32": true, "LoadInt64": true,
+	"LoadUint32": true, "LoadUint64": true, "StoreInt32": true, "StoreInt64": true, "StoreUint32": true, "StoreUint64": true, "SwapInt32": true,
+	"SwapInt64": true, "CompareAndSwapInt32": true, "CompareAndSwapInt64": true, "CompareAndSwapUint32": true}
 var ctxMap = map[string]string{
 	"WithCancel": "WithCancel", "WithTimeout": "WithTimeout", "WithDeadline": "WithDeadline",
 	"WithValue": "WithValue", "Background": "Background", "TODO": "TODO", "Cause": "Cause",
 }
 var ctxKeep = map[string]bool{"Context": true, "CancelFunc": true, "Canceled": true, "DeadlineExceeded": true}
-var timeMap = map[string]string{"Now": "TimeNow", "Until": "TimeUntil", "Since": "TimeSince", "Sleep": "TimeSleep"}
-var timeBad = map[string]bool{"After": true, "AfterFunc": true, "NewTimer": true, "NewTicker": true, "Tick": true, "Timer": true, "Ticker": true}
+var timeMap = map[string]string{"Now": "TimeNow", "Until": "TimeUntil", "Since": "TimeSince", "Sleep": "TimeSleep",
+	"After": "TimeAfter", "AfterFunc": "TimeAfterFunc", "NewTimer": "TimeNewTimer", "Timer": "Timer"}
+var timeBad = map[string]bool{"NewTicker": true, "Tick": true, "Ticker": true}
 var ioMap = map[string]string{"Pipe": "Pipe", "PipeReader": "PipeReader", "PipeWriter": "PipeWriter"}
 
 func (r *rewriter) decide(f *ast.File) {
@@ -187,7 +194,7 @@ func (r *rewriter) decide(f *ast.File) {
 	for _, imp := range f.Imports {
 		p, _ := strconv.Unquote(imp.Path.Value)
 		switch p {
-		case "sync/atomic", "unsafe":
+		case "unsafe":
 			fail(r.fset, imp.Pos(), "import of %s (synchronisation the scheduler cannot see)", p)
 		}
 	}
@@ -229,6 +236,8 @@ func (r *rewriter) decide(f *ast.File) {
 							fail(r.fset, n.Pos(), "call through a function value returning a channel")
 						}
 					}
+				} else if callee.Pkg() != nil && callee.Pkg().Path() == "time" && timeMap[callee.Name()] != "" {
+					// rewritten to a controlled timer: already returns a controlled channel
 				} else if callee.Pkg() == nil || !r.own[callee.Pkg().Path()] {
 					r.wrapCall[n] = true
 				}
@@ -264,8 +273,16 @@ func (r *rewriter) decide(f *ast.File) {
 			case "sync":
 				if to, ok := syncMap[n.Sel.Name]; ok {
 					r.selRepl[n] = to
-				} else {
+				} else if !syncKeep[n.Sel.Name] {
 					fail(r.fset, n.Pos(), "sync.%s", n.Sel.Name)
+				}
+			case "sync/atomic":
+				if to, ok := atomicTypes[n.Sel.Name]; ok {
+					r.selRepl[n] = to
+				} else if atomicFuncs[n.Sel.Name] {
+					r.selRepl[n] = "Atomic" + n.Sel.Name
+				} else {
+					fail(r.fset, n.Pos(), "atomic.%s", n.Sel.Name)
 				}
 			case "context":
 				if to, ok := ctxMap[n.Sel.Name]; ok {
@@ -298,7 +315,9 @@ func (r *rewriter) decide(f *ast.File) {
 			}
 			// fields of native channel type declared in foreign packages (timer.C)
 			if sel, ok := r.info.Selections[n]; ok && sel.Kind() == types.FieldVal && isChan(sel.Type()) {
-				if sel.Obj().Pkg() == nil || !r.own[sel.Obj().Pkg().Path()] {
+				if sel.Obj().Pkg() != nil && sel.Obj().Pkg().Path() == "time" && sel.Obj().Name() == "C" {
+					// time.Timer.C: the Timer type itself is rewritten
+				} else if sel.Obj().Pkg() == nil || !r.own[sel.Obj().Pkg().Path()] {
 					fail(r.fset, n.Pos(), "foreign field of channel type")
 				}
 			}
@@ -396,7 +415,7 @@ func (r *rewriter) file(f *ast.File) {
 		return
 	}
 	astutil.AddNamedImport(r.fset, f, mcName, mcPath)
-	for _, p := range []string{"sync", "io", "time", "runtime", "context"} {
+	for _, p := range []string{"sync", "sync/atomic", "io", "time", "runtime", "context"} {
 		if !astutil.UsesImport(f, p) {
 			astutil.DeleteImport(r.fset, f, p)
 		}
